@@ -124,6 +124,9 @@ pub struct World {
     /// free-form observation log (virtual ms, text) for replays
     pub log: Vec<(u64, String)>,
     pub trace: bool,
+    /// keep the future of a caller that has resolved until it is released explicitly (as
+    /// `join!` / `select!` loops do); default: drop it right after it resolves
+    pub retain_done: bool,
     root: Arc<RootWake>,
     // last: dropped after callers (futures may hold timers)
     holder: RtHolder,
@@ -192,6 +195,7 @@ impl World {
             poll_seq: 0,
             log: Vec::new(),
             trace: false,
+            retain_done: false,
             root,
             holder: RtHolder { guard: Some(guard), rt: Some(rt) },
         }
@@ -310,7 +314,11 @@ impl World {
         let waker = Waker::from(cl.flag.clone());
         let mut cx = Context::from_waker(&waker);
         let fut = cl.fut.as_mut().unwrap();
-        let r = catch_unwind(AssertUnwindSafe(|| fut.as_mut().poll(&mut cx)));
+        // The poll happens inside block_on: only there does tokio seed the thread's RNG from
+        // the runtime's (fixed) seed generator; outside it `select!` would pick its start
+        // branch from a randomly seeded thread-local generator.
+        let rt = self.holder.rt.as_ref().unwrap();
+        let r = rt.block_on(std::future::poll_fn(|_| Poll::Ready(catch_unwind(AssertUnwindSafe(|| fut.as_mut().poll(&mut cx))))));
         let res = match r {
             Ok(Poll::Pending) => PollResult::Pending,
             Ok(Poll::Ready(o)) => {
@@ -326,7 +334,7 @@ impl World {
                 PollResult::Panicked
             }
         };
-        if res != PollResult::Pending {
+        if res != PollResult::Pending && !(self.retain_done && matches!(res, PollResult::Done(_))) {
             // drop the future (under catch_unwind: drop impls of the code under test may run)
             let f = cl.fut.take();
             let _ = catch_unwind(AssertUnwindSafe(move || drop(f)));
@@ -351,6 +359,21 @@ impl World {
         self.settle();
     }
 
+    /// Drop the retained future of a caller that has already resolved.
+    pub fn release_done(&mut self, c: usize) {
+        self.begin_step();
+        let cl = &mut self.callers[c];
+        assert!(matches!(cl.phase, Phase::Done(_)) && cl.fut.is_some(), "release of caller {c} without a retained future");
+        let f = cl.fut.take();
+        let _ = catch_unwind(AssertUnwindSafe(move || drop(f)));
+        self.note(format!("release completed future of c{c}"));
+        self.settle();
+    }
+
+    pub fn has_retained(&self, c: usize) -> bool {
+        matches!(self.callers[c].phase, Phase::Done(_)) && self.callers[c].fut.is_some()
+    }
+
     /// Open the gate of inner call k.
     pub fn complete(&mut self, k: usize, out: Out) {
         self.begin_step();
@@ -359,6 +382,17 @@ impl World {
             w.wake();
         }
         self.note(format!("complete k{k} {:?}", out));
+        self.settle();
+    }
+
+    /// Let held inner instance #idx become ready (see `InnerState::hold_late_ready`).
+    pub fn release_ready(&mut self, idx: usize) {
+        self.begin_step();
+        let w = self.inner.lock().unwrap().release_ready(idx);
+        if let Some(w) = w {
+            w.wake();
+        }
+        self.note(format!("inner instance held #{idx} becomes ready"));
         self.settle();
     }
 
@@ -468,6 +502,33 @@ impl Future for NextEvent {
             Poll::Pending => Poll::Pending,
         }
     }
+}
+
+/// Maps the output of the service's own future to an `Outcome` *without* dropping that
+/// future when it resolves (an `async` block or `FutureExt::map` would drop it on
+/// completion): together with `World::retain_done` this models callers such as `join!`,
+/// which keep completed futures alive until all of them are done.
+pub struct Keep<F: Future, M> {
+    fut: Pin<Box<F>>,
+    map: Option<M>,
+}
+
+impl<F: Future, M: FnOnce(F::Output) -> Outcome + Unpin> Future for Keep<F, M> {
+    type Output = Outcome;
+    fn poll(mut self: Pin<&mut Self>, cx: &mut Context<'_>) -> Poll<Outcome> {
+        let this = &mut *self;
+        if this.map.is_none() {
+            panic!("Keep polled after completion");
+        }
+        match this.fut.as_mut().poll(cx) {
+            Poll::Pending => Poll::Pending,
+            Poll::Ready(o) => Poll::Ready((this.map.take().unwrap())(o)),
+        }
+    }
+}
+
+pub fn keep<F: Future + 'static, M: FnOnce(F::Output) -> Outcome + Unpin + 'static>(f: F, map: M) -> CallerFut {
+    Box::pin(Keep { fut: Box::pin(f), map: Some(map) })
 }
 
 /// Drive `poll_ready` of a tower service to `Ready` with a no-op waker (bounded spins).
